@@ -138,6 +138,31 @@ CHECKS = {
         "bounds": {"quick": "S depth 5, ME d=3, CF 3, SD d=2, BIN level 1", "thorough": "S depth 7, ME d=4, CF 8, SD d=3, BIN level 2"},
         "assumptions": ["configurations compared: the feature sets listed in coverage.cross_config.configurations, release profile"],
     },
+    "C10": {
+        "bin": "c10",
+        "crash_is_violation": True,
+        "quick": cfgs(["dflt", "rdxfmt"]) + cfgs(["rdxfmt"], profile="reldbg"),
+        "thorough": cfgs(["dflt", "fmt", "rdxfmt", "cmprdxfmt"]) + cfgs(["dflt", "rdxfmt", "cmprdxfmt"], profile="reldbg"),
+        "rule": "every raw byte string up to length 2 (+ every third byte after a byte that can start a number; thorough: all 256^3) through the default "
+                "API of all 14 types; every string of <= L tokens over a per-format alphabet {+,-,0,1,max digit,point,exponent char in both cases,"
+                "separator,prefix,suffix,n,i,comma} and long digit strings (3..41 and 400..1200 digits, one or two separators at every position) through "
+                "parse and parse_partial of f64/f32/u8/i32/i64/u128 for every catalogued format (STANDARD, each flag alone, digit/sign/special/leading-zero/"
+                "case clusters, 15 separator combinations per component, mixed separators, radices, 147 prebuilt formats); inputs end at a PROT_NONE guard "
+                "page (every 8th case also starts at one); oracle: no panic, no fault (SIGSEGV/SIGBUS handler names the case), consumed count and error "
+                "index <= len, result independent of placement; non-trivial = inputs accepted by the complete parser",
+        "bounds": {"quick": "token depth 4 (3 for prebuilt formats); release and debug-assertion profiles", "thorough": "token depth 5 (4 prebuilt); all byte strings of length <= 3"},
+        "assumptions": ["termination is checked by the driver's run timeout only", "the guard page detects over-reads of >= 1 byte past the end (or before the start) of the input slice"],
+    },
+    "C11": {
+        "bin": "c10",
+        "quick": cfgs(["dflt", "rdxfmt"], args=["--c11"]),
+        "thorough": cfgs(["dflt", "fmt", "rdxfmt", "cmprdxfmt"], args=["--c11"]),
+        "rule": "same enumeration as C10; relational oracle, no reference model: parse(s) = Ok(v) <=> parse_partial(s) = Ok((v, len)); and "
+                "parse_partial(s) = Ok((v, n)) with 0 < n < len => parse(s[..n]) = Ok(v); floats by bits, NaN by class; STANDARD options and custom "
+                "punctuation (',' decimal point, '^' exponent); non-trivial = inputs accepted by the complete parser",
+        "bounds": {"quick": "token depth 4 (3 for prebuilt formats)", "thorough": "token depth 5 (4 prebuilt); all byte strings of length <= 3"},
+        "assumptions": [],
+    },
 }
 
 # properties not claimed (reason). Kept current by hand.
